@@ -944,6 +944,10 @@ class GMRFVectorModel(object):
         # Generate data matrix
         # (n_samples, n_features)
         data, self.n_samples = self._data_to_matrix(samples, n_samples)
+        # integer-typed data (e.g. uint8 pixels) wrap around in the edge
+        # differences of the 'subtraction' mode: compute in floating point
+        if not np.issubdtype(data.dtype, np.floating):
+            data = data.astype(np.float64)
 
         # n_features and n_features_per_vertex
         self.n_features = data.shape[1]
